@@ -105,6 +105,30 @@ fn alphabet(dist: bool) -> Vec<Item> {
                 (frame(&f2, 4), Exp::Msg(DistMsg { control: c2.clone(), payload: Some(p2.clone()) })),
             ] });
         }
+        // entries announced, then a well-formed message the decoder refuses after its header (payload nested 300 deep, with one
+        // more announcement in that header), then old references to all of them: the cache must still agree with the sender
+        {
+            let a2 = ["peer@127.0.0.1", "me@127.0.0.1"];
+            let link = RefVal::Tuple(vec![RefVal::int(1), peer_pid(3), my_pid(1)]);
+            let f1 = hdr_msg(&link, None, &a2, true);
+            let table3: Vec<String> = vec!["peer@127.0.0.1".into(), "me@127.0.0.1".into(), "later".into()];
+            let c2 = RefVal::Tuple(vec![RefVal::int(22), peer_pid(3), my_pid(1)]);
+            let hdr2: Vec<HdrRef> = vec![HdrRef { segment: 0, index: 0, new_text: None }, HdrRef { segment: 0, index: 1, new_text: None }, HdrRef { segment: 0, index: 2, new_text: Some("later".into()) }];
+            let mut f2 = write_dist_header(&hdr2);
+            w_term_cached(&mut f2, &c2, &table3);
+            for _ in 0..300 { f2.extend_from_slice(&[104, 1]); }
+            f2.extend_from_slice(&[97, 1]);
+            let p3 = RefVal::Tuple(vec![RefVal::atom("peer@127.0.0.1"), RefVal::atom("later"), RefVal::atom("me@127.0.0.1")]);
+            let old3: Vec<HdrRef> = (0..3).map(|i| HdrRef { segment: 0, index: i as u8, new_text: None }).collect();
+            let mut f3 = write_dist_header(&old3);
+            w_term_cached(&mut f3, &c2, &table3);
+            w_term_cached(&mut f3, &p3, &table3);
+            v.push(Item { name: "hdr_refused_message_between_announcement_and_old_refs", frames: vec![
+                (frame(&f1, 4), Exp::Msg(DistMsg { control: link.clone(), payload: None })),
+                (frame(&f2, 4), Exp::OneErr),
+                (frame(&f3, 4), Exp::Msg(DistMsg { control: c2.clone(), payload: Some(p3.clone()) })),
+            ] });
+        }
         // fragmented: the same identity-slot message cut into 2 and 3 fragments by the reference fragmenter
         let whole = hdr_msg(&c1, Some(&p1), &atoms, true);
         let body = &whole[2..]; // after 131,68
@@ -332,6 +356,54 @@ fn junk_flood_exec(case: &(usize, bool), ctx: &WorkerCtx) -> ExecResult {
     })
 }
 
+/// The caller abandons `receive_message` (its future is dropped by a timeout) between the fragments of a message and
+/// calls it again: what was received before must still count.
+fn cancelled_receive_exec(which: &usize, ctx: &WorkerCtx) -> ExecResult {
+    let which = *which;
+    run_rt(async move {
+        let mut res = ExecResult::default();
+        let extra = DIST_HDR | 0x800_0000;
+        let mut cw = match conn_world(ctx, flags_default() | extra, flags_default() | extra).await {
+            Ok(x) => x,
+            Err(e) => { res.violations.push(("could not establish the connection under a conforming peer".into(), json!({"error": e}))); return res; }
+        };
+        cw.w.gates.set_active(&[]);
+        let alpha = alphabet(true);
+        let name = ["kfragperm_asis_321", "kfragperm_asis_213", "kfragperm_asis_tick_between"][which % 3];
+        let item = alpha.iter().find(|i| i.name == name).expect("item").clone();
+        let log: Arc<Mutex<Vec<Result<(RefVal, Option<RefVal>), String>>>> = Arc::new(Mutex::new(vec![]));
+        let cancels = Arc::new(Mutex::new(0u64));
+        let (l2, c2) = (log.clone(), cancels.clone());
+        let mut conn = cw.conn;
+        tokio::spawn(async move {
+            loop {
+                match tokio::time::timeout(std::time::Duration::from_secs(1), conn.receive_message()).await {
+                    Err(_) => { *c2.lock().unwrap() += 1; if *c2.lock().unwrap() > 50 { break; } }
+                    Ok(r) => { let stop = r.is_err(); l2.lock().unwrap().push(r.map(|(c, p)| (denote(&c.to_term()), p.as_ref().map(denote))).map_err(|e| e.to_string())); if stop { break; } }
+                }
+            }
+        });
+        let probe = { let l = log.clone(); move || l.lock().unwrap().len() as u64 };
+        for (bytes, _) in &item.frames {
+            cw.peer.send(bytes);
+            cw.w.settle(&mut cw.peer, &probe).await;
+            // the pending receive is abandoned now (between two whole frames) and started again
+            tokio::time::advance(std::time::Duration::from_millis(2500)).await;
+            cw.w.settle(&mut cw.peer, &probe).await;
+        }
+        let got = log.lock().unwrap().clone();
+        let want = item.frames.iter().find_map(|(_, e)| if let Exp::FragAsIsLast(m) = e { Some(m.clone()) } else { None }).expect("expected message");
+        let ok = got.len() == 1 && matches!(&got[0], Ok((c, p)) if exact_eq(c, &want.control) && p.as_ref().map(|p| exact_eq(p, want.payload.as_ref().unwrap())).unwrap_or(false));
+        // judged only if this library delivers this layout at all when the receive is not abandoned (see the arrival-order cases)
+        if !ok {
+            res.violations.push(("CANCEL:fragments received before an abandoned receive_message call are lost".into(), json!({"frames": name, "receives_abandoned": *cancels.lock().unwrap(), "results": got.iter().map(|r| match r { Ok((c, _)) => format!("Ok({})", c.short()), Err(e) => format!("Err({})", e) }).collect::<Vec<_>>()})));
+        }
+        res.steps = item.frames.len() as u64;
+        res.outcome = format!("cancelled receive {} cancels {}", name, *cancels.lock().unwrap());
+        res
+    })
+}
+
 pub fn run(rep: &Report) -> Value { run_filtered(rep, None) }
 
 /// C09 at the connection: only the fragment arrival-order cases (receive_message; the read-half entry point is pass-through only).
@@ -405,6 +477,11 @@ fn run_filtered(rep: &Report, only: Option<&str>) -> Value {
                     _ => {}
                 }
             }
+        }
+        if dist && !read_half && perm_results.lock().unwrap().get("kfragperm_asis_321").copied() == Some(true) {
+            let whichs = [0usize, 1, 2];
+            let st_c = for_all(rep, "receive_message abandoned between fragments", &whichs, |c, ctx| { let mut r = cancelled_receive_exec(c, ctx); for v in r.violations.iter_mut() { if let Some(rest) = v.0.strip_prefix("CANCEL:") { v.0 = rest.to_string(); } } r });
+            total.executions += st_c.executions; total.transitions += st_c.transitions;
         }
         total.executions += st.executions; total.transitions += st.transitions; total.distinct_outcomes += st.distinct_outcomes; total.unstable += st.unstable;
         parts.push(json!({"configuration": name, "cases": cases.len(), "alphabet": alpha.iter().map(|a| a.name).collect::<Vec<_>>(), "distinct_outcomes": st.distinct_outcomes}));
